@@ -261,6 +261,8 @@ fn gen_frame(w: &mut World, out: &mut Vec<u8>) {
 #[derive(Clone, Debug)]
 struct Targeted {
     name: &'static str,
+    /// written into an Initial packet of the attacker instead of into a 1-RTT packet
+    handshake_space: bool,
     frames: Vec<u8>,
     /// admissible transport error codes on the victim
     codes: Vec<u64>,
@@ -284,50 +286,50 @@ fn targeted_cases(victim_is_server: bool, victim_max_bidi: u64, attacker_cid_len
     put_var(&mut f, victim_uni0);
     put_var(&mut f, 1);
     f.push(b'x');
-    c.push(Targeted { name: "stream-on-send-only", frames: f.clone(), codes: vec![STREAM_STATE_ERROR] });
+    c.push(Targeted { handshake_space: false, name: "stream-on-send-only", frames: f.clone(), codes: vec![STREAM_STATE_ERROR] });
     // STREAM beyond the advertised stream count
     f.clear();
     f.push(0x0a);
     put_var(&mut f, attacker_bidi(victim_max_bidi + 5));
     put_var(&mut f, 1);
     f.push(b'x');
-    c.push(Targeted { name: "stream-beyond-stream-limit", frames: f.clone(), codes: vec![STREAM_LIMIT_ERROR] });
+    c.push(Targeted { handshake_space: false, name: "stream-beyond-stream-limit", frames: f.clone(), codes: vec![STREAM_LIMIT_ERROR] });
     // MAX_STREAM_DATA on a receive-only stream (client-initiated uni, as seen by the server)
     f.clear();
     f.push(0x11);
     put_var(&mut f, attacker_uni0);
     put_var(&mut f, 1000);
-    c.push(Targeted { name: "max-stream-data-on-recv-only", frames: f.clone(), codes: vec![STREAM_STATE_ERROR] });
+    c.push(Targeted { handshake_space: false, name: "max-stream-data-on-recv-only", frames: f.clone(), codes: vec![STREAM_STATE_ERROR] });
     // STOP_SENDING on a receive-only stream
     f.clear();
     f.push(0x05);
     put_var(&mut f, attacker_uni0);
     put_var(&mut f, 1);
-    c.push(Targeted { name: "stop-sending-on-recv-only", frames: f.clone(), codes: vec![STREAM_STATE_ERROR] });
+    c.push(Targeted { handshake_space: false, name: "stop-sending-on-recv-only", frames: f.clone(), codes: vec![STREAM_STATE_ERROR] });
     // RESET_STREAM on a send-only stream
     f.clear();
     f.push(0x04);
     put_var(&mut f, victim_uni0);
     put_var(&mut f, 1);
     put_var(&mut f, 0);
-    c.push(Targeted { name: "reset-on-send-only", frames: f.clone(), codes: vec![STREAM_STATE_ERROR] });
+    c.push(Targeted { handshake_space: false, name: "reset-on-send-only", frames: f.clone(), codes: vec![STREAM_STATE_ERROR] });
     // MAX_STREAMS above 2^60
     f.clear();
     f.push(0x12);
     put_var(&mut f, (1 << 60) + 1);
-    c.push(Targeted { name: "max-streams-too-large", frames: f.clone(), codes: vec![FRAME_ENCODING_ERROR, STREAM_LIMIT_ERROR] });
+    c.push(Targeted { handshake_space: false, name: "max-streams-too-large", frames: f.clone(), codes: vec![FRAME_ENCODING_ERROR, STREAM_LIMIT_ERROR] });
     // unknown frame type
     f.clear();
     put_var(&mut f, 0x40);
-    c.push(Targeted { name: "unknown-frame-type", frames: f.clone(), codes: vec![FRAME_ENCODING_ERROR] });
+    c.push(Targeted { handshake_space: false, name: "unknown-frame-type", frames: f.clone(), codes: vec![FRAME_ENCODING_ERROR] });
     if vs {
         // HANDSHAKE_DONE from a client
-        c.push(Targeted { name: "handshake-done-from-client", frames: vec![0x1e], codes: vec![PROTOCOL_VIOLATION] });
+        c.push(Targeted { handshake_space: false, name: "handshake-done-from-client", frames: vec![0x1e], codes: vec![PROTOCOL_VIOLATION] });
         // NEW_TOKEN from a client
-        c.push(Targeted { name: "new-token-from-client", frames: vec![0x07, 0x02, 1, 2], codes: vec![PROTOCOL_VIOLATION] });
+        c.push(Targeted { handshake_space: false, name: "new-token-from-client", frames: vec![0x07, 0x02, 1, 2], codes: vec![PROTOCOL_VIOLATION] });
     } else {
         // NEW_TOKEN with an empty token (§19.7)
-        c.push(Targeted { name: "new-token-empty", frames: vec![0x07, 0x00], codes: vec![FRAME_ENCODING_ERROR] });
+        c.push(Targeted { handshake_space: false, name: "new-token-empty", frames: vec![0x07, 0x00], codes: vec![FRAME_ENCODING_ERROR] });
     }
     // ACK of a packet that was never sent
     f.clear();
@@ -336,7 +338,7 @@ fn targeted_cases(victim_is_server: bool, victim_max_bidi: u64, attacker_cid_len
     put_var(&mut f, 0);
     put_var(&mut f, 0);
     put_var(&mut f, 0);
-    c.push(Targeted { name: "ack-of-unsent-packet", frames: f.clone(), codes: vec![PROTOCOL_VIOLATION] });
+    c.push(Targeted { handshake_space: false, name: "ack-of-unsent-packet", frames: f.clone(), codes: vec![PROTOCOL_VIOLATION] });
     // ACK whose second range would end one / two below packet number zero
     for (name, gap) in [("ack-range-one-below-zero", 0u64), ("ack-range-two-below-zero", 1u64)] {
         f.clear();
@@ -347,13 +349,13 @@ fn targeted_cases(victim_is_server: bool, victim_max_bidi: u64, attacker_cid_len
         put_var(&mut f, 0); // first range: just packet 1
         put_var(&mut f, gap);
         put_var(&mut f, 0);
-        c.push(Targeted { name, frames: f.clone(), codes: vec![FRAME_ENCODING_ERROR] });
+        c.push(Targeted { handshake_space: false, name, frames: f.clone(), codes: vec![FRAME_ENCODING_ERROR] });
     }
     // RETIRE_CONNECTION_ID for a sequence number never issued
     f.clear();
     f.push(0x19);
     put_var(&mut f, 1 << 30);
-    c.push(Targeted { name: "retire-unissued-cid", frames: f.clone(), codes: vec![PROTOCOL_VIOLATION] });
+    c.push(Targeted { handshake_space: false, name: "retire-unissued-cid", frames: f.clone(), codes: vec![PROTOCOL_VIOLATION] });
     // NEW_CONNECTION_ID with retire_prior_to > sequence
     f.clear();
     f.push(0x18);
@@ -362,7 +364,7 @@ fn targeted_cases(victim_is_server: bool, victim_max_bidi: u64, attacker_cid_len
     f.push(8);
     f.extend_from_slice(&[9; 8]);
     f.extend_from_slice(&[7; 16]);
-    c.push(Targeted { name: "new-cid-retire-prior-to-above-seq", frames: f.clone(), codes: vec![FRAME_ENCODING_ERROR, PROTOCOL_VIOLATION] });
+    c.push(Targeted { handshake_space: false, name: "new-cid-retire-prior-to-above-seq", frames: f.clone(), codes: vec![FRAME_ENCODING_ERROR, PROTOCOL_VIOLATION] });
     // truncated STREAM frame: length runs past the end of the packet — needs the frame to be last,
     // so it is padded *before*, not after (handled by the injector: `tail`)
     // two different final sizes
@@ -378,7 +380,7 @@ fn targeted_cases(victim_is_server: bool, victim_max_bidi: u64, attacker_cid_len
     put_var(&mut f, 20);
     put_var(&mut f, 1);
     f.push(b'b');
-    c.push(Targeted { name: "two-final-sizes", frames: f.clone(), codes: vec![FINAL_SIZE_ERROR] });
+    c.push(Targeted { handshake_space: false, name: "two-final-sizes", frames: f.clone(), codes: vec![FINAL_SIZE_ERROR] });
     // frames for streams the victim would have to open itself and has not (server-initiated
     // bidirectional / unidirectional stream 50): RFC 9000 §19.8, §19.10, §19.5
     let unopened_bi = victim_bidi(50);
@@ -388,33 +390,33 @@ fn targeted_cases(victim_is_server: bool, victim_max_bidi: u64, attacker_cid_len
     put_var(&mut f, unopened_bi);
     put_var(&mut f, 1);
     f.push(b'x');
-    c.push(Targeted { name: "stream-on-unopened-local-stream", frames: f.clone(), codes: vec![STREAM_STATE_ERROR] });
+    c.push(Targeted { handshake_space: false, name: "stream-on-unopened-local-stream", frames: f.clone(), codes: vec![STREAM_STATE_ERROR] });
     for (name, id) in [("max-stream-data-on-unopened-local-bidi", unopened_bi), ("max-stream-data-on-unopened-local-uni", unopened_uni)] {
         f.clear();
         f.push(0x11);
         put_var(&mut f, id);
         put_var(&mut f, 100_000);
-        c.push(Targeted { name, frames: f.clone(), codes: vec![STREAM_STATE_ERROR] });
+        c.push(Targeted { handshake_space: false, name, frames: f.clone(), codes: vec![STREAM_STATE_ERROR] });
     }
     for (name, id) in [("stop-sending-on-unopened-local-bidi", unopened_bi), ("stop-sending-on-unopened-local-uni", unopened_uni)] {
         f.clear();
         f.push(0x05);
         put_var(&mut f, id);
         put_var(&mut f, 7);
-        c.push(Targeted { name, frames: f.clone(), codes: vec![STREAM_STATE_ERROR] });
+        c.push(Targeted { handshake_space: false, name, frames: f.clone(), codes: vec![STREAM_STATE_ERROR] });
     }
     // STREAM_DATA_BLOCKED on a stream the victim only sends on (§19.13)
     f.clear();
     f.push(0x15);
     put_var(&mut f, victim_uni0);
     put_var(&mut f, 10);
-    c.push(Targeted { name: "stream-data-blocked-on-send-only", frames: f.clone(), codes: vec![STREAM_STATE_ERROR] });
+    c.push(Targeted { handshake_space: false, name: "stream-data-blocked-on-send-only", frames: f.clone(), codes: vec![STREAM_STATE_ERROR] });
     // STREAMS_BLOCKED above 2^60 (§19.14)
     for (name, ty) in [("streams-blocked-bidi-too-large", 0x16u8), ("streams-blocked-uni-too-large", 0x17)] {
         f.clear();
         f.push(ty);
         put_var(&mut f, (1 << 60) + 1);
-        c.push(Targeted { name, frames: f.clone(), codes: vec![FRAME_ENCODING_ERROR, STREAM_LIMIT_ERROR] });
+        c.push(Targeted { handshake_space: false, name, frames: f.clone(), codes: vec![FRAME_ENCODING_ERROR, STREAM_LIMIT_ERROR] });
     }
     // NEW_CONNECTION_ID with an impossible length (§19.15)
     for (name, len) in [("new-cid-length-zero", 0u8), ("new-cid-length-21", 21)] {
@@ -425,7 +427,7 @@ fn targeted_cases(victim_is_server: bool, victim_max_bidi: u64, attacker_cid_len
         f.push(len);
         f.extend_from_slice(&vec![9; len as usize]);
         f.extend_from_slice(&[7; 16]);
-        c.push(Targeted { name, frames: f.clone(), codes: vec![FRAME_ENCODING_ERROR] });
+        c.push(Targeted { handshake_space: false, name, frames: f.clone(), codes: vec![FRAME_ENCODING_ERROR] });
     }
     // more connection IDs than the victim's active_connection_id_limit allows (§5.1.1) — or any
     // at all while the victim addresses the attacker with a zero-length ID (§19.15)
@@ -438,28 +440,59 @@ fn targeted_cases(victim_is_server: bool, victim_max_bidi: u64, attacker_cid_len
         f.extend_from_slice(&[0xC0 | seq as u8; 8]);
         f.extend_from_slice(&[seq as u8; 16]);
     }
-    c.push(Targeted { name: "new-cid-beyond-active-limit", frames: f.clone(), codes: vec![if attacker_cid_len == 0 { PROTOCOL_VIOLATION } else { CONNECTION_ID_LIMIT_ERROR }] });
+    c.push(Targeted { handshake_space: false, name: "new-cid-beyond-active-limit", frames: f.clone(), codes: vec![if attacker_cid_len == 0 { PROTOCOL_VIOLATION } else { CONNECTION_ID_LIMIT_ERROR }] });
     // offsets past 2^62-1 (§19.6, §19.8)
     f.clear();
     f.push(0x06);
     put_var(&mut f, (1 << 62) - 1);
     put_var(&mut f, 2);
     f.extend_from_slice(b"xy");
-    c.push(Targeted { name: "crypto-offset-overflow", frames: f.clone(), codes: vec![FRAME_ENCODING_ERROR, CRYPTO_BUFFER_EXCEEDED] });
+    c.push(Targeted { handshake_space: false, name: "crypto-offset-overflow", frames: f.clone(), codes: vec![FRAME_ENCODING_ERROR, CRYPTO_BUFFER_EXCEEDED] });
     f.clear();
     f.push(0x0e);
     put_var(&mut f, attacker_bidi(50));
     put_var(&mut f, (1 << 62) - 1);
     put_var(&mut f, 2);
     f.extend_from_slice(b"xy");
-    c.push(Targeted { name: "stream-offset-overflow", frames: f.clone(), codes: vec![FRAME_ENCODING_ERROR, FLOW_CONTROL_ERROR] });
+    c.push(Targeted { handshake_space: false, name: "stream-offset-overflow", frames: f.clone(), codes: vec![FRAME_ENCODING_ERROR, FLOW_CONTROL_ERROR] });
     // RESET_STREAM whose final size lies beyond every limit the victim advertised (§4.5)
     f.clear();
     f.push(0x04);
     put_var(&mut f, attacker_bidi(50));
     put_var(&mut f, 1);
     put_var(&mut f, (1 << 62) - 1);
-    c.push(Targeted { name: "reset-final-size-beyond-limits", frames: f.clone(), codes: vec![FLOW_CONTROL_ERROR] });
+    c.push(Targeted { handshake_space: false, name: "reset-final-size-beyond-limits", frames: f.clone(), codes: vec![FLOW_CONTROL_ERROR] });
+    // frame types that Initial and Handshake packets must not carry (§12.4, Table 3)
+    let hs: [(&'static str, Vec<u8>); 7] = [
+        ("stream-frame-in-handshake-space", {
+            let mut f = vec![0x0a];
+            put_var(&mut f, attacker_bidi(0));
+            put_var(&mut f, 1);
+            f.push(b'x');
+            f
+        }),
+        ("max-data-in-handshake-space", {
+            let mut f = vec![0x10];
+            put_var(&mut f, 100_000);
+            f
+        }),
+        ("new-cid-in-handshake-space", {
+            let mut f = vec![0x18];
+            put_var(&mut f, 1);
+            put_var(&mut f, 0);
+            f.push(8);
+            f.extend_from_slice(&[0xAB; 8]);
+            f.extend_from_slice(&[0xCD; 16]);
+            f
+        }),
+        ("handshake-done-in-handshake-space", vec![0x1e]),
+        ("path-challenge-in-handshake-space", vec![0x1a, 1, 2, 3, 4, 5, 6, 7, 8]),
+        ("new-token-in-handshake-space", vec![0x07, 0x02, 1, 2]),
+        ("application-close-in-handshake-space", vec![0x1d, 0x07, 0x00]),
+    ];
+    for (name, frames) in hs {
+        c.push(Targeted { handshake_space: true, name, frames, codes: vec![PROTOCOL_VIOLATION] });
+    }
     c
 }
 
@@ -476,6 +509,8 @@ pub struct C03Scen {
     attacks: u32,
     targeted: Option<Targeted>,
     targeted_sent_at: Option<u64>,
+    /// the victim endpoint refused to create a connection for the attacker's datagram
+    accept_failed: Option<ConnectionError>,
     flood_kind: u32,
     flood_packets: u32,
     pub base_live: i64,
@@ -484,6 +519,22 @@ pub struct C03Scen {
 }
 
 impl C03Scen {
+    fn inject_handshake_space_case(&mut self, w: &mut World) {
+        if self.attacker_inc == NO_INC || self.targeted_sent_at.is_some() {
+            return;
+        }
+        let t = self.targeted.clone().unwrap();
+        // an attacking client overlays the padding of its next Initial; an attacking server's
+        // padding sits in the 0.5-RTT packet that ends its first datagram, so it gives up the
+        // contents of its Initial packet instead (the victim must reject that packet whatever
+        // else the datagram holds)
+        let overlay = !self.hostile_server;
+        self.inject(w, Space::Initial, t.frames, overlay);
+        self.targeted_sent_at = Some(w.now);
+        w.faults.hit("inject_targeted_handshake_space");
+        self.attacks = 1000;
+    }
+
     fn attacker_ready(&self, w: &World) -> bool {
         self.attacker_inc != NO_INC && self.b.wl.sides.get(&self.attacker_inc).is_some_and(|s| s.connected) && !w.conns[self.attacker_inc as usize].conn.is_closed()
     }
@@ -526,6 +577,10 @@ impl C03Scen {
                 w.faults.hit("inject_frames_1rtt");
             }
             // one targeted violation, exact error class expected
+            1 if self.targeted.as_ref().is_some_and(|t| t.handshake_space) => {
+                self.inject_handshake_space_case(w);
+                return;
+            }
             1 => {
                 if self.attacker_ready(w) && self.targeted_sent_at.is_none() && self.b.wl.sides.get(&self.victim_inc).is_some_and(|s| s.connected) {
                     let t = self.targeted.clone().unwrap();
@@ -719,9 +774,18 @@ impl Scenario for C03Scen {
             if self.hostile_server {
                 self.attacker_inc = inc;
                 self.victim_inc = self.pair_key;
+                if self.targeted.as_ref().is_some_and(|t| t.handshake_space) {
+                    // (the server's first flight is sealed by the drive that follows)
+                    self.inject_handshake_space_case(w);
+                }
             } else {
                 self.victim_inc = inc;
             }
+        }
+    }
+    fn on_accept_failed(&mut self, _w: &mut World, node: u32, _dgram: u32, err: &ConnectionError) {
+        if node == self.b.server && self.accept_failed.is_none() {
+            self.accept_failed = Some(err.clone());
         }
     }
     fn on_event(&mut self, w: &mut World, inc: u32, ev: Event) {
@@ -793,12 +857,16 @@ fn run(ch: Chooser, ctx: &RunCtx, mode: u32) -> RunOut {
     // client 0 is the attacker: pad every packet so that there is room to overwrite
     let attacker_inc = *b.client_incs.first().unwrap_or(&NO_INC);
     b.wl.unchecked.insert(attacker_inc);
-    let mut sc = C03Scen { b, mode, attacker_inc: if hostile_server { NO_INC } else { attacker_inc }, victim_inc: NO_INC, pair_key: attacker_inc, hostile_server, attacks: 0, targeted: None, targeted_sent_at: None, flood_kind: 0, flood_packets: 0, base_live: crate::alloc::live(), peak_growth: 0, last_attack_at: 0 };
+    let mut sc = C03Scen { b, mode, attacker_inc: if hostile_server { NO_INC } else { attacker_inc }, victim_inc: NO_INC, pair_key: attacker_inc, hostile_server, attacks: 0, targeted: None, targeted_sent_at: None, accept_failed: None, flood_kind: 0, flood_packets: 0, base_live: crate::alloc::live(), peak_growth: 0, last_attack_at: 0 };
     if mode == 1 {
         let attacker_cid_len = w.nodes[if hostile_server { sc.b.server } else { sc.b.clients[0] } as usize].cid_len;
         let cases = targeted_cases(!hostile_server, if hostile_server { sc.b.client_knobs.max_bidi } else { sc.b.server_knobs.max_bidi }, attacker_cid_len);
         let i = w.ch.choose("c03.targeted.case", cases.len() as u32) as usize;
         sc.targeted = Some(cases[i].clone());
+        if cases[i].handshake_space && !hostile_server {
+            // the attacking client's next padded Initial carries it
+            sc.inject_handshake_space_case(&mut w);
+        }
     }
     if hostile_server {
         w.faults.hit("hostile_server");
@@ -841,6 +909,20 @@ fn run(ch: Chooser, ctx: &RunCtx, mode: u32) -> RunOut {
     if w.violations.is_empty() && mode == 1 {
         if let (Some(t), Some(_)) = (&sc.targeted, sc.targeted_sent_at) {
             let injected = w.tap.lock().unwrap().injected;
+            if injected > 0 && sc.victim_inc == NO_INC {
+                // the illegal frame rode in the datagram that would have created the victim
+                // connection: the endpoint must have refused with the prescribed class
+                if let Some(ConnectionError::TransportError(e)) = &sc.accept_failed {
+                    let code = u64::from(e.code);
+                    if !t.codes.contains(&code) {
+                        let (k, d) = (format!("wrong-error-class/{}", t.name), format!("victim endpoint refused the connection with transport error 0x{:x} ({}), RFC 9000 prescribes one of {:x?}", code, e, t.codes));
+                        w.violate(k, d);
+                    } else {
+                        w.probes.hit("targeted_violation_rejected_at_accept");
+                        w.probes.hit(t.name);
+                    }
+                }
+            }
             if injected > 0 && sc.victim_inc != NO_INC {
                 match w.conns[sc.victim_inc as usize].lost.first() {
                     Some(ConnectionError::TransportError(e)) => {
